@@ -66,7 +66,8 @@ def runC15 (op : String) (j : Json) : R Json := do
                       ("samples", jInts samples), ("binsize", jInt bs), ("winsize", jInt ws),
                       ("ids", jNats idl), ("model_eq_spec", specEq),
                       ("fl_dom", Json.bool (decide (FlDom times rate bin window))),
-                      ("times_exact", Json.bool (timesExact times rate)),
+                      ("on_grid", Json.bool (timesOnGrid times rate)),
+                      ("clipped", Json.bool (clipped bin window)),
                       ("q_same", Json.bool qSame)])
   | "fl" =>
     -- `Fl.roundDouble` on a list of exact rationals; `inrange` = the binary64 result is this one (`Fl.InRange`)
